@@ -14,8 +14,9 @@ DECIDING = ["reobservations", "steps", "histories"]
 RULE = (
     "random definition histories of 3..12 steps; a step creates a class on DBC (0..2 bases chosen among the classes defined so far, "
     "so siblings, chains, joins and diamonds arise; 0..3 own invariants with check_on in {CALL, SETATTR, ALL} applied by decorator in "
-    "any order; 1..2 members of any kind, declared or overriding, with preconditions/postconditions/snapshots) or decorates a plain "
-    "function. When an entity is defined the monitor records (a) the contents of every introspection list reachable from it "
+    "any order; 1..2 members of any kind, declared or overriding, with preconditions/postconditions/snapshots), decorates a plain "
+    "function, or adds a precondition/postcondition AFTERWARDS to a method of an already created class (by the decorator or "
+    "through add_*_to_checker; the decorated class and its subclasses are then re-baselined, everything else is protected). When an entity is defined the monitor records (a) the contents of every introspection list reachable from it "
     "(precondition groups, postconditions, snapshots of each member's checker; the three invariant lists of the class) as tuples of "
     "contract tokens and (b) the event traces and outcomes of a fixed battery of probe calls (construction, member call, attribute "
     "assignment; all-true and each-single-false truth assignments). After EVERY later step every earlier entity is re-observed and "
@@ -156,8 +157,15 @@ def make_step(rng, ids: gen.Ids, existing: List[Dict[str, Any]], member_pool: Li
         m = gen.make_member(ids, rng, "function", ids.new("f"), rng.random() < 0.2, rng.randint(0, 2), rng.randint(0, 2), rng.randint(0, 1),
                             params=[prog.P("x")], forms=["def", "lambda"])
         return {"func": m}
-    name = ids.new("K")
     from vkit.model import Model as _Model  # pylint: disable=import-outside-toplevel
+    targets = [(c["name"], m["name"]) for c in existing for m in c.get("members", []) if m["kind"] == "method"]
+    if targets and rng.random() < 0.18:
+        # decorate a method of an already defined class afterwards (the decorators find the existing checker and add to it;
+        # integrators do the same through add_*_to_checker)
+        cname, mname = rng.choice(targets)
+        return {"decorate": {"id": ids.new("x"), "cls": cname, "member": mname, "role": rng.choice(("pre", "pre", "post")),
+                             "via": rng.choice(("decorator", "add_to_checker"))}}
+    name = ids.new("K")
     for _ in range(8):
         nb = rng.choice((0, 1, 1, 1, 2)) if existing else 0
         bases = rng.sample([c["name"] for c in existing], min(nb, len(existing)))
@@ -213,8 +221,42 @@ def make_step(rng, ids: gen.Ids, existing: List[Dict[str, Any]], member_pool: Li
     return {"name": name, "bases": bases, "dbc": True, "invs": invs, "members": members, "class_body": class_body, "aliases": aliases}
 
 
+def decorate_source(d: Dict[str, Any]) -> str:
+    """Source of a step that adds a contract to a method of an existing class after the class was created."""
+    cid, cname, mname = d["id"], d["cls"], d["member"]
+    arg = "x" if d["role"] == "pre" else "result"
+    deco = "require" if d["role"] == "pre" else "ensure"
+    adder = "add_precondition_to_checker" if d["role"] == "pre" else "add_postcondition_to_checker"
+    kw = "c_{c}, description={desc!r}, error=HUB.errinst({c!r})".format(c=cid, desc="D:" + cid)
+    raw = "{}.__dict__[{!r}]".format(cname, mname)
+    lines = ["def c_{c}({a}):\n    return HUB.cond({c!r}, {{{a!r}: {a}}})\n".format(c=cid, a=arg), "try:"]
+    if d["via"] == "decorator":
+        lines.append("    {}.{} = icontract.{}({})({})".format(cname, mname, deco, kw, raw))
+    else:
+        lines.append("    _chk = icontract._checkers.find_checker({})".format(raw))
+        lines.append("    if _chk is None:")
+        lines.append("        {}.{} = icontract.{}({})({})".format(cname, mname, deco, kw, raw))
+        lines.append("    else:")
+        lines.append("        icontract._checkers.{}(checker=_chk, contract=icontract._types.Contract(condition=c_{}, description={!r}, "
+                     "error=HUB.errinst({!r})))".format(adder, cid, "D:" + cid, cid))
+    # a checker that already holds several (inherited) groups refuses further preconditions: the step then changes nothing
+    lines.append("except AssertionError as HUB_err:\n    HUB.definition_failed({!r}, HUB_err)\n".format("decorate:" + cid))
+    return "\n".join(lines) + "\n"
+
+
+def affected_by_decoration(d: Dict[str, Any], ent: "Entity", class_specs: List[Dict[str, Any]]) -> bool:
+    """The decorated class itself and its subclasses legitimately change (the statement protects bases, siblings, unrelated)."""
+    if not ent.is_class:
+        return False
+    model = Model({"classes": class_specs})
+    return d["cls"] in model.mro(ent.name)
+
+
 def classify(hist: List[Dict[str, Any]], victim: Entity, culprit_step: Dict[str, Any], changed: str) -> str:
     """Mechanism key for a leak."""
+    if "decorate" in culprit_step:
+        # mechanism: the checker of an overriding member shares (precondition group) lists with the checker of the base member
+        return "C17/contract-added-to-override-afterwards-leaks-into-base"
     if "name" in culprit_step and victim.is_class and changed in ("__invariants_on_setattr__", "__invariants_on_call__", "__invariants__", "behaviour"):
         # the culprit is a subclass (direct or indirect) of the victim decorated with an invariant of a check_on kind for
         # which the victim's own list is empty (so the subclass found the base's empty list through attribute lookup)
@@ -248,7 +290,11 @@ def run_history(w, hist_index: int) -> None:
     try:
         for step_no in range(n_steps):
             step = make_step(rng, ids, class_specs, member_pool)
-            if "func" in step:
+            if "decorate" in step:
+                spec = None
+                name = "decorate:" + step["decorate"]["id"]
+                w.count("decorations_afterwards")
+            elif "func" in step:
                 spec = {"funcs": [step["func"]], "classes": []}
                 name = step["func"]["name"]
             else:
@@ -258,7 +304,7 @@ def run_history(w, hist_index: int) -> None:
                     continue
                 spec = {"funcs": [], "classes": [step]}
                 name = step["name"]
-            src = prog.render(spec)[len(prog.PRELUDE):]
+            src = prog.render(spec)[len(prog.PRELUDE):] if spec is not None else decorate_source(step["decorate"])
             path = os.path.join(scratch, "hist_{}_{}_{}.py".format(os.getpid(), hist_index, step_no))
             with open(path, "w") as fid:
                 fid.write(src)
@@ -267,13 +313,20 @@ def run_history(w, hist_index: int) -> None:
             exec(compile(src, path, "exec"), module.__dict__)  # pylint: disable=exec-used
             w.count("steps")
             hist.append(step)
-            if name in hub.creation_errors:
+            if name in hub.creation_errors and "decorate" not in step:
                 # a definition the model accepts but the library rejects is C04's business; drop the step
                 hist.pop()
                 continue
             # re-observe every earlier entity
             for ent in entities:
+                if "decorate" in step and affected_by_decoration(step["decorate"], ent, class_specs):
+                    # the decorated class and its subclasses: take the new observation as their reference
+                    ent.lists = introspect(getattr(module, ent.name), observed_members(ent.spec), ent.is_class)
+                    ent.behaviour = behaviour(hub, module, ent, ent.battery_ids)
+                    continue
                 w.count("reobservations")
+                if "decorate" in step:
+                    w.count("reobservations_after_decoration")
                 has_contracts = any(v for v in (ent.lists or {}).values())
                 w.case((hist_index, step_no, ent.name) if has_contracts else None)
                 now_lists = introspect(getattr(module, ent.name), observed_members(ent.spec), ent.is_class)
@@ -292,6 +345,8 @@ def run_history(w, hist_index: int) -> None:
                                     name, now_beh[i][:3], ent.name, ent.behaviour[i][3:], now_beh[i][3:]), case)
                     ent.behaviour = now_beh
             # record the new entity
+            if "decorate" in step:
+                continue
             if "func" in step:
                 ent = Entity(name, {"members": []}, False)
                 ent.battery_ids = [c["id"] for dk, c in step["func"]["decos"] if dk in ("pre", "post")]
@@ -310,7 +365,7 @@ def run_history(w, hist_index: int) -> None:
             w.count("battery_calls", len(ent.behaviour))
             entities.append(ent)
         if hist_index % 25 == 0 and entities:
-            w.sample({"history": [s.get("name") or s["func"]["name"] for s in hist],
+            w.sample({"history": [s.get("name") or (s["func"]["name"] if "func" in s else "decorate " + s["decorate"]["cls"]) for s in hist],
                       "bases": {s["name"]: s["bases"] for s in hist if "name" in s},
                       "first_entity_lists": entities[0].lists})
     finally:
@@ -343,18 +398,25 @@ def replay(case, w) -> None:
     class_specs = []  # type: List[Dict[str, Any]]
     try:
         for step_no, step in enumerate(hist):
-            if "func" in step:
+            if "decorate" in step:
+                spec = None
+                name = "decorate:" + step["decorate"]["id"]
+            elif "func" in step:
                 spec = {"funcs": [step["func"]], "classes": []}
                 name = step["func"]["name"]
             else:
                 spec = {"funcs": [], "classes": [step]}
                 name = step["name"]
-            src = prog.render(spec)[len(prog.PRELUDE):]
+            src = prog.render(spec)[len(prog.PRELUDE):] if spec is not None else decorate_source(step["decorate"])
             path = os.path.join(scratch, "replay_{}.py".format(step_no))
             with open(path, "w") as fid:
                 fid.write(src)
             exec(compile(src, path, "exec"), module.__dict__)  # pylint: disable=exec-used
             for ent in entities:
+                if "decorate" in step and affected_by_decoration(step["decorate"], ent, class_specs):
+                    ent.lists = introspect(getattr(module, ent.name), observed_members(ent.spec), ent.is_class)
+                    ent.behaviour = behaviour(hub, module, ent, ent.battery_ids)
+                    continue
                 now_lists = introspect(getattr(module, ent.name), observed_members(ent.spec), ent.is_class)
                 if now_lists != ent.lists:
                     changed = next(k for k in now_lists if now_lists[k] != ent.lists.get(k))
@@ -364,6 +426,8 @@ def replay(case, w) -> None:
                 if now_beh != ent.behaviour:
                     w.violation(classify(hist[: step_no + 1], ent, step, "behaviour"), "behaviour of {} changed after defining {}".format(ent.name, name), case)
                     ent.behaviour = now_beh
+            if "decorate" in step:
+                continue
             if "func" in step:
                 ent = Entity(name, {"members": []}, False)
                 ent.battery_ids = [c["id"] for dk, c in step["func"]["decos"] if dk in ("pre", "post")]
